@@ -141,6 +141,19 @@ func c03Scenarios(tier string) []*Scenario {
 		sc.Ordered = ordered
 		sc.Horizon = 30 * time.Second
 	}
+	// 16. a start request for a process that has an instance but no command (back-off, pending), then the shutdown
+	{
+		restarting := func(w *World) bool { return w.lastStat["a"] == "Restarting" }
+		add("start-in-backoff", "a (always, back-off 2 s) has exited; a start request arrives during the back-off, then the shutdown",
+			projectYAML(nil, PC{Name: "a", Restart: "always", Backoff: 2}, PC{Name: "x"}),
+			map[string]*ProcScript{"a": {Launches: [][]Action{{Exit(1)}, {}}}, "x": daemon}, 3,
+			[]APICall{{Op: "start", Name: "a", When: restarting}, {Op: "shutdown"}})
+		dUp := func(w *World) bool { return w.launches["d#0"] > 0 }
+		add("start-while-pending", "a waits for d (completed); a start request for a arrives, then the shutdown",
+			projectYAML(nil, PC{Name: "d"}, PC{Name: "a", Deps: map[string]string{"d": "process_completed"}}),
+			map[string]*ProcScript{"d": daemon, "a": daemon}, 1,
+			[]APICall{{Op: "start", Name: "a", When: dUp}, {Op: "shutdown"}})
+	}
 	if tier == "thorough" {
 		add("three", "three independent processes, one restarting", projectYAML(nil, PC{Name: "a"}, PC{Name: "b", Restart: "always"}, PC{Name: "c", Deps: map[string]string{"a": "process_started"}}),
 			map[string]*ProcScript{"a": daemon, "b": {Launches: [][]Action{{Exit(0)}, {}}}, "c": daemon}, 2, shut)
